@@ -127,6 +127,12 @@ fn arith_case(out: &mut Out, a: (i64, i64), b: (i64, i64), d: Duration) {
             "out": out_ts(guarded(|| (ia + d).map(|x| *x.as_ref())))}));
         out.ev(&json!({"ty":"instant","op":"sub","a":tv(a.0,a.1),"b":dv(d),
             "out": out_ts(guarded(|| (ia - d).map(|x| *x.as_ref())))}));
+        // elapsed(): now.duration_since(self); bracketed by two readings of the same clock
+        let before: TimeSpec = *Instant::now().as_ref();
+        let el = guarded(|| ia.elapsed());
+        let after: TimeSpec = *Instant::now().as_ref();
+        out.ev(&json!({"ty":"instant","op":"elapsed","a":tv(a.0,a.1),"b":tv(before.seconds(),before.nanoseconds()),
+            "c":tv(after.seconds(),after.nanoseconds()),"out": out_dur(el)}));
         if b.0 >= 0 {
             let ib = mk_instant(tb);
             out.ev(&json!({"ty":"instant","op":"diff","a":tv(a.0,a.1),"b":tv(b.0,b.1),
@@ -151,6 +157,9 @@ fn arith_case(out: &mut Out, a: (i64, i64), b: (i64, i64), d: Duration) {
         "out": out_dur(guarded(|| sa - sb))}));
     out.ev(&json!({"ty":"system","op":"diff","a":tv(a.0,a.1),"b":tv(b.0,b.1),"via":"duration_since",
         "out": out_dur(guarded(|| sa.duration_since(sb)))}));
+    // SystemTime::elapsed reads the real-time clock (may be stepped): panic-freedom only ("b" negative => not in domain)
+    out.ev(&json!({"ty":"system","op":"elapsed","a":tv(a.0,a.1),"b":tv(-1,0),"c":tv(-1,0),
+        "out": out_dur(guarded(|| sa.elapsed()))}));
     out.ev(&json!({"ty":"system","op":"since_unix","a":tv(a.0,a.1),"b":tv(0,0),
         "out": out_dur(guarded(|| Some(sa.duration_since_unix_time())))}));
     let cmp = guarded(|| (sa <= sb, sa < sb, sa == sb, sa.cmp(&sb) as i32));
@@ -266,9 +275,19 @@ fn clock(threads: usize, readings: usize) {
         let outm = outm.clone();
         let baton = baton.clone();
         hs.push(std::thread::spawn(move || {
-            let mut evs = Vec::with_capacity(readings + readings / 8 + 64);
+            let mut evs = Vec::with_capacity(readings + readings / 4 + 64);
             let mut bevs = vec![];
+            let base = MonotonicInstant::now();
+            let base_ts: TimeSpec = *base.as_instant().as_ref();
             for k in 0..readings {
+                if k % 5 == 2 {
+                    // MonotonicInstant::elapsed of an earlier reading, bracketed by two readings
+                    let b = mono();
+                    let d = base.elapsed();
+                    let a = mono();
+                    evs.push(json!({"ev":"elapsed","lane":th,"base_s":base_ts.seconds(),"base_ns":base_ts.nanoseconds(),
+                        "ds":d.as_secs(),"dns":d.subsec_nanos(),"bs":b.0,"bns":b.1,"s":a.0,"ns":a.1}));
+                }
                 // three flavours of reading: MonotonicInstant::now, Instant::now, and elapsed() of ZERO
                 let (s, ns) = match k % 3 {
                     0 => mono(),
